@@ -16,7 +16,8 @@ import traceback
 from . import engine
 
 
-CASE_TIMEOUT = 60
+CASE_TIMEOUT = 20
+MAX_TIMEOUTS_PER_WORKER = 2   # a change that makes the implementation hang is reported, not waited for
 
 
 class Case:
@@ -119,6 +120,25 @@ class Prop:
         return res, impl_obs, model_obs
 
 
+class CaseTimeout(BaseException):
+    """not an `Exception`: the code under test catches those (and would go on looping)"""
+
+
+def _on_alarm(signum, frame):
+    raise CaseTimeout('case did not finish within %d s' % CASE_TIMEOUT)
+
+
+def _arm():
+    import signal
+    signal.signal(signal.SIGALRM, _on_alarm)
+    signal.setitimer(signal.ITIMER_REAL, CASE_TIMEOUT, 1.0)   # re-fires should it be swallowed
+
+
+def _disarm():
+    import signal
+    signal.setitimer(signal.ITIMER_REAL, 0)
+
+
 def corpus_cases(prop):
     d = os.path.join(engine.VERIF, 'corpus', prop.id)
     out = []
@@ -146,19 +166,20 @@ def _worker(args):
     out = []
     import signal
 
-    def on_alarm(signum, frame):
-        raise TimeoutError('case did not finish within %d s' % CASE_TIMEOUT)
-    signal.signal(signal.SIGALRM, on_alarm)
+    timeouts = 0
     for seed in seeds:
+        if timeouts >= MAX_TIMEOUTS_PER_WORKER:
+            break
         rnd = random.Random(seed)
         case = None
         try:
-            signal.alarm(CASE_TIMEOUT)
+            _arm()
             case = prop.gen_case(rnd, tier)
             res, io, mo = prop.run_case(case, driver)
-            signal.alarm(0)
-        except TimeoutError as e:
-            signal.alarm(0)
+            _disarm()
+        except CaseTimeout as e:
+            _disarm()
+            timeouts += 1
             res = Result()
             # a hang of the implementation on a generated input is reported as a violation with
             # the input as replay (the oracle could not be evaluated)
@@ -173,7 +194,7 @@ def _worker(args):
             except engine.MachineryError:
                 driver = None
         except Exception:
-            signal.alarm(0)
+            _disarm()
             res = Result()
             res.error = traceback.format_exc()[-1500:]
             case = None
@@ -253,7 +274,20 @@ def run_check(prop, tier, seed, replay=None, jobs=None, n_cases=None, write_evid
     else:
         cases = corpus_cases(prop)
     for c in cases:
-        res, io, mo = prop.run_case(c, driver)
+        try:
+            _arm()
+            res, io, mo = prop.run_case(c, driver)
+            _disarm()
+        except CaseTimeout as e:
+            _disarm()
+            res = Result()
+            res.violations.append(str(e))
+            if driver:
+                driver.close()
+            try:
+                driver = engine.Driver()
+            except engine.MachineryError:
+                driver = None
         results.append((c.origin, engine.case_hash(c.payload), res, c.payload))
     if not replay:
         n = n_cases or (prop.quick_cases if tier == 'quick' else prop.thorough_cases)
